@@ -1227,6 +1227,34 @@ def run_callbacks(level):
                         judge(name, M.CustomModel(cdf, hint, lo, hi), lo, hi)
                     except BaseException as e:
                         fail("Python front end | CustomModel | a well-formed cdf with an arbitrary approximate inverse is refused or fails", f"{name}: {type(e).__name__}: {str(e)[:140]}")
+        # callbacks that are not cdfs at all (C20 for the front end): any exception is fine, a symbol outside the
+        # support or a crash of the interpreter is not
+        counters["py_hostile_callbacks"] = 0
+        class Boom(Exception):
+            pass
+        def raising(x, *a):
+            raise Boom("cdf raised")
+        hostile = [("constant 2", lambda x, *a: 2.0), ("constant -1", lambda x, *a: -1.0), ("nan", lambda x, *a: float("nan")), ("inf", lambda x, *a: float("inf")), ("-inf", lambda x, *a: float("-inf")),
+                   ("1e300", lambda x, *a: 1e300), ("decreasing", lambda x, *a: 1.0 - logistic(0.0, 2.0)(x)), ("sawtooth", lambda x, *a: abs(x * 0.37) % 1.0), ("zig-zag", lambda x, *a: 0.9 if int(math.floor(x)) % 2 == 0 else 0.1),
+                   ("returns a string", lambda x, *a: "0.5"), ("returns None", lambda x, *a: None), ("raises", raising), ("returns an int", lambda x, *a: 1), ("returns a numpy scalar", lambda x, *a: np.float32(0.5))]
+        for cname, cdf in hostile:
+            for hname, hint in hints[:4] + [("raises", raising), ("returns a string", lambda xi, *a: "x")]:
+                for lo, hi in [(-5, 5), (0, 1), (-2**20, 2**20), (2**31 - 3, 2**31 - 1)]:
+                    sys.stderr.write(f"@{n}\n")
+                    n += 1; counters["py_hostile_callbacks"] += 1
+                    try:
+                        model = M.CustomModel(cdf, hint, lo, hi)
+                        for w in words_list:
+                            out = ANS(w, True).decode(model, 3)
+                            if any(int(o) < lo or int(o) > hi for o in out):
+                                fail("Python front end | CustomModel with a callback that is not a cdf | decodes a symbol outside the support", f"cdf = {cname}, inverse = {hname}, [{lo}, {hi}]: {list(out)}")
+                            out = RDEC(w).decode(model, 3)
+                            if any(int(o) < lo or int(o) > hi for o in out):
+                                fail("Python front end | CustomModel with a callback that is not a cdf | decodes a symbol outside the support", f"cdf = {cname}, inverse = {hname}, [{lo}, {hi}]: {list(out)}")
+                        c = ANS(); c.encode_reverse(np.array([lo, hi, lo], dtype=np.int32), model); c.get_compressed()
+                        r = RENC(); r.encode(np.array([lo, hi, lo], dtype=np.int32), model); r.get_compressed()
+                    except BaseException:
+                        pass
         # per-symbol parameters for the callbacks
         fam = M.CustomModel(lambda x, loc, scale: 1.0 / (1.0 + math.exp(-max(min((x - loc) / scale, 700.0), -700.0))), lambda xi, loc, scale: loc, -20, 20)
         locs, scales = np.array([0.3, -7.7, 19.0, 2.0]), np.array([1.0, 0.01, 5.0, 30.0])
